@@ -109,7 +109,7 @@ func judge(res *core.Result, w *env.World, ops []opRun, scen, driverKind, word s
 	var events []write
 	for _, e := range log {
 		o := byAgent[e.Agent]
-		if o == nil || e.Phase != "done" || e.Injected || e.Cut {
+		if o == nil || e.Phase != "done" || e.Injected || e.Cut || e.Class == "discovery" {
 			continue
 		}
 		events = append(events, write{e, o})
@@ -239,7 +239,7 @@ func outStr(err error) string {
 func callsAround(log []sim.Event, agent string, seq int64) bool {
 	before, after := false, false
 	for _, e := range log {
-		if e.Agent == agent && e.Phase == "done" {
+		if e.Agent == agent && e.Phase == "done" && e.Class != "discovery" {
 			if e.Seq < seq {
 				before = true
 			} else if e.Seq > seq {
